@@ -374,5 +374,40 @@ class NativeEvaluate:
                            ctypes.byref(ctypes.c_int(nrows)), ctypes.byref(ctypes.c_int(ncols)))
         return out, err.value
 
+    # the two other routines, with the call signatures the f2py-built module has (so that an instance can stand in for
+    # `FortranEngine.ENGINE`): inputs in, outputs returned as a tuple
+    def solve_t(self, initial_values, t, min_iter, max_iter, tol, offset, convergence_variables, error_control):
+        nrows, ncols = np.shape(initial_values)
+        init = np.asfortranarray(initial_values, dtype=np.float64)
+        out = np.zeros((nrows, ncols), dtype=np.float64, order='F')
+        conv = np.asarray(list(convergence_variables), dtype=np.int32)
+        converged, iteration, err = ctypes.c_int(0), ctypes.c_int(-99), ctypes.c_int(-99)
+        ci = ctypes.c_int
+        self.lib.solve_t_(init.ctypes.data_as(ctypes.c_void_p), ctypes.byref(ci(int(t))), ctypes.byref(ci(int(min_iter))),
+                          ctypes.byref(ci(int(max_iter))), ctypes.byref(ctypes.c_double(float(tol))), ctypes.byref(ci(int(offset))),
+                          conv.ctypes.data_as(ctypes.c_void_p), ctypes.byref(ci(int(error_control))),
+                          out.ctypes.data_as(ctypes.c_void_p), ctypes.byref(converged), ctypes.byref(iteration), ctypes.byref(err),
+                          ctypes.byref(ci(nrows)), ctypes.byref(ci(ncols)), ctypes.byref(ci(len(conv))))
+        return out, bool(converged.value), iteration.value, err.value
+
+    def solve(self, initial_values, indexes, min_iter, max_iter, tol, offset, convergence_variables, failure_control, error_control):
+        nrows, ncols = np.shape(initial_values)
+        init = np.asfortranarray(initial_values, dtype=np.float64)
+        out = np.zeros((nrows, ncols), dtype=np.float64, order='F')
+        idx = np.asarray(list(indexes), dtype=np.int32)
+        conv = np.asarray(list(convergence_variables), dtype=np.int32)
+        n = len(idx)
+        conv_res = np.zeros(n, dtype=np.int32)
+        iters = np.zeros(n, dtype=np.int32)
+        codes = np.zeros(n, dtype=np.int32)
+        ci = ctypes.c_int
+        self.lib.solve_(init.ctypes.data_as(ctypes.c_void_p), idx.ctypes.data_as(ctypes.c_void_p), ctypes.byref(ci(int(min_iter))),
+                        ctypes.byref(ci(int(max_iter))), ctypes.byref(ctypes.c_double(float(tol))), ctypes.byref(ci(int(offset))),
+                        conv.ctypes.data_as(ctypes.c_void_p), ctypes.byref(ci(int(failure_control))), ctypes.byref(ci(int(error_control))),
+                        out.ctypes.data_as(ctypes.c_void_p), conv_res.ctypes.data_as(ctypes.c_void_p), iters.ctypes.data_as(ctypes.c_void_p),
+                        codes.ctypes.data_as(ctypes.c_void_p), ctypes.byref(ci(nrows)), ctypes.byref(ci(ncols)), ctypes.byref(ci(len(conv))),
+                        ctypes.byref(ci(n)))
+        return out, conv_res.astype(bool), iters, codes
+
     def close(self) -> None:
         shutil.rmtree(self._dir, ignore_errors=True)
